@@ -95,25 +95,36 @@ def record(workload, base, scratch):
     return rel, ops
 
 
-def inject(workload, base, rel_paths, op, scratch):
-    """Run the workload on the (already restored) base directory and kill it on entry to op."""
+def inject(workload, base, rel_paths, op, scratch, sig="KILL"):
+    """Run the workload on the (already restored) base directory and kill it on entry to op (SIGKILL), or deliver
+    SIGINT there: the interpreter then dies by KeyboardInterrupt, running its exception handlers on the way out."""
     out = os.path.join(scratch, "inj.txt")
-    extra = ["-e", f"inject={op['name']}:signal=KILL:when={op['ordinal']}"]
+    extra = ["-e", f"inject={op['name']}:signal={sig}:when={op['ordinal']}"]
     for q in rel_paths:
         extra += ["-P", os.path.normpath(os.path.join(base, q))]
     p = _strace([workload, "work", base], out, extra)
     lines = open(out, errors="replace").read().splitlines()
     # the tracee that was killed, and the call it had entered ("name(args) = ?" or "name(args <unfinished ...>")
-    victims = [m.group(1) for l in lines if (m := re.match(r"^(\d+)\s+\+\+\+ killed by SIGKILL", l))]
+    victims = [m.group(1) for l in lines if (m := re.match(r"^(\d+)\s+\+\+\+ killed by SIG" + sig, l))]
     last = ""
-    for l in reversed(lines):
-        m = LINE.match(l)
-        if m and m.group(1) in victims and m.group(2) == op["name"] and ("= ?" in l or "<unfinished" in l):
-            last = l
-            break
+    if sig == "KILL":
+        for l in reversed(lines):
+            m = LINE.match(l)
+            if m and m.group(1) in victims and m.group(2) == op["name"] and ("= ?" in l or "<unfinished" in l):
+                last = l
+                break
+    else:  # the call itself completes, the signal is handled right after it: the call before the "--- SIGINT" line
+        for i, l in enumerate(lines):
+            if re.match(r"^(\d+)\s+--- SIG" + sig, l):
+                for prev in reversed(lines[:i]):
+                    m = LINE.match(prev)
+                    if m and m.group(2) == op["name"]:
+                        last = prev
+                        break
+                break
     # sequential workloads: the traced interpreter itself dies (status 137); parallel ones: a child is killed and the
     # parent ends with an error of its own
-    killed = bool(victims) and (p.returncode in (137, -9) or workload.endswith("p"))
+    killed = bool(victims) and (p.returncode in (137, -9, 130, -2) or workload.endswith("p"))
     return dict(rc=p.returncode, killed=killed, matched=killed and bool(last),
                 tail=last.replace(" <unfinished ...>", " = ?").strip()[:200], victims=len(victims),
                 stdout=p.stdout[-4000:])
@@ -176,6 +187,8 @@ def record_parent(workload, base, scratch):
     # of the main process, which is not traced; 8 chunk requests: 7 chunks of one record and the end of input)
     for k in range(1, 8):
         ops.append(dict(name="chunk-request", ordinal=k, text=f"chunk-request({k})", mutating=True, proc=0))
+    for k in range(1, 8):  # the same instants with SIGINT: the main process unwinds (KeyboardInterrupt) before it dies
+        ops.append(dict(name="chunk-request-int", ordinal=k, text=f"chunk-request-int({k})", mutating=True, proc=0))
     shutil.rmtree(base)
     shutil.copytree(snap, base, symlinks=True)
     return [], ops
@@ -183,11 +196,13 @@ def record_parent(workload, base, scratch):
 
 def inject_parent(workload, base, op, scratch, grace=2.5):
     out = os.path.join(scratch, "injp.txt")
-    if op["name"] == "chunk-request":
-        p, stdout, stderr = _strace_parent([workload, "work", base], out, env=dict(W1P_KILL_AT_CHUNK=str(op["ordinal"])))
+    if op["name"] in ("chunk-request", "chunk-request-int"):
+        sig = "INT" if op["name"].endswith("-int") else "KILL"
+        p, stdout, stderr = _strace_parent([workload, "work", base], out,
+                                           env=dict(W1P_KILL_AT_CHUNK=str(op["ordinal"]), W1P_SIGNAL=sig))
         _kill_group(p, grace)
-        killed = p.returncode in (-9, 137)
-        return dict(rc=p.returncode, killed=killed, matched=killed, tail=f"chunk-request({op['ordinal']}) = ?", victims=int(killed),
+        killed = p.returncode in ((-9, 137) if sig == "KILL" else (-2, 130, 1))
+        return dict(rc=p.returncode, killed=killed, matched=killed, tail=f"{op['name']}({op['ordinal']}) = ?", victims=int(killed),
                     stdout=stdout[-4000:])
     extra = ["-e", f"inject={op['name']}:signal=KILL:when={op['ordinal']}"]
     p, stdout, stderr = _strace_parent([workload, "work", base], out, extra)
